@@ -127,7 +127,7 @@ def run_part(ctx):
     hs = harnesses(ctx.tier)
     ctx.sharded(shard, nshards=len(hs), deadline=ctx.sub_deadline(0.5))
     ex = ctx.total.counters.get("executions", 0) - before
-    ctx.cov["e3_threads"] = {"schedules_explored": ex, "schedule_points": ctx.total.counters.get("schedule_points", 0), "PB": "2 (three threads: 1)", "harnesses": [h.name for h in hs]}
+    ctx.cov["e3_threads"] = {"schedules_explored": ex, "coarse_executions": ctx.total.counters.get("coarse_executions", 0), "schedule_points": ctx.total.counters.get("schedule_points", 0), "PB": "2 (three threads: 1)", "harnesses": [h.name for h in hs]}
     ctx.assumptions = list(ctx.assumptions) + [
         "E3 part: two (three) controlled threads subscribing to / unsubscribing from one share()d observable; preemption at sync operations and "
         "line boundaries of _refcount.py and connectableobservable.py"
